@@ -5,7 +5,9 @@
 // request Host × router) and probes it through the chosen Host using nothing but what
 // the discovery document says: issuer vs. `iss` of minted tokens, every advertised URL
 // routed (and serving its function), grant_types_supported vs. unsupported_grant_type,
-// S256, request objects. Three pure grids decide the constructor's issuer validation
+// S256, request objects. Part "issuer-flows" (c19_flows_test.go) decides the issuer clause
+// for every token-issuing flow x JWT kind x issuer strategy x Host x router with a
+// one-step history on the same instance. Three pure grids decide the constructor's issuer validation
 // (static issuer strings, dynamic issuer paths) and client.Discover's issuer comparison.
 //
 // Isolation: op.NewProvider stores the POINTER op.DefaultEndpoints and the
@@ -191,7 +193,8 @@ var pathSpace = engine.Space{
 
 var discSpace = engine.Space{
 	engine.D("asked", "https://op.example", "https://op.example/", "https://op.example/tenant", "http://localhost:9998", "https://op.example:8443"),
-	engine.D("doc", "same", "other-host", "add-slash", "strip-slash", "upper-host", "add-path", "parent", "empty", "absent", "other-scheme", "default-port", "trailing-space", "subdomain", "pct-encoded", "suffix-host"),
+	engine.D("doc", "same", "other-host", "add-slash", "strip-slash", "upper-host", "add-path", "parent", "empty", "absent", "other-scheme", "default-port", "trailing-space", "subdomain", "pct-encoded", "suffix-host",
+		"one-shorter", "one-longer", "upper-scheme", "leading-space", "userinfo", "contains-asked"),
 	engine.D("wellknown", "default", "override"),
 	engine.D("source", "synthetic", "provider"),
 }
@@ -448,9 +451,22 @@ func (e *env) unrouted(stage, key string, resp *rig.Resp) *stageErr {
 // code runs authorization request -> login -> callback through the advertised
 // authorization endpoint and returns the redirect back to the RP.
 func (e *env) code(clientID string, q url.Values) (*url.URL, *stageErr) {
+	loc, resp, se := e.authz(clientID, q)
+	if se != nil {
+		return nil, se
+	}
+	if loc.Query().Get("code") == "" {
+		return nil, &stageErr{stage: "callback", what: fmt.Sprintf("%s: %d %s %.200s", errCode(resp), resp.Status, resp.Header.Get("Location"), resp.Body)}
+	}
+	return loc, nil
+}
+
+// authz runs authorization request -> login -> callback for any response type and
+// returns the redirect back to the RP (code in the query or tokens in the fragment).
+func (e *env) authz(clientID string, q url.Values) (*url.URL, *rig.Resp, *stageErr) {
 	ap, why := e.rel("authorization_endpoint")
 	if why != "" {
-		return nil, e.addrErr("authorize", "authorization_endpoint", why)
+		return nil, nil, e.addrErr("authorize", "authorization_endpoint", why)
 	}
 	cl := e.r.Core.Cfg.Clients[clientID]
 	full := url.Values{"client_id": {clientID}, "redirect_uri": {cl.Redirects[0]}, "response_type": {"code"}, "scope": {"openid"}, "state": {"st-query"}, "nonce": {"n-1"}}
@@ -459,22 +475,22 @@ func (e *env) code(clientID string, q url.Values) (*url.URL, *stageErr) {
 	}
 	resp := e.do("GET", ap, full, nil)
 	if resp.Status == 404 || resp.Status == 405 {
-		return nil, e.unrouted("authorize", "authorization_endpoint", resp)
+		return nil, nil, e.unrouted("authorize", "authorization_endpoint", resp)
 	}
 	loc := resp.Location()
 	if resp.Status/100 != 3 || loc == nil || !strings.HasPrefix(loc.Path, "/login") || loc.Query().Get("authRequestID") == "" {
-		return nil, &stageErr{stage: "authorize", what: fmt.Sprintf("%s: %d %s %.200s", errCode(resp), resp.Status, resp.Header.Get("Location"), resp.Body)}
+		return nil, nil, &stageErr{stage: "authorize", what: fmt.Sprintf("%s: %d %s %.200s", errCode(resp), resp.Status, resp.Header.Get("Location"), resp.Body)}
 	}
 	id := loc.Query().Get("authRequestID")
 	if err := e.r.Core.Login(id, "u1"); err != nil {
-		return nil, &stageErr{stage: "login", what: err.Error()}
+		return nil, nil, &stageErr{stage: "login", what: err.Error()}
 	}
 	resp = e.do("GET", ap+"/callback", url.Values{"id": {id}}, nil)
 	loc = resp.Location()
-	if resp.Status/100 != 3 || loc == nil || loc.Query().Get("code") == "" {
-		return nil, &stageErr{stage: "callback", what: fmt.Sprintf("%s: %d %s %.200s", errCode(resp), resp.Status, resp.Header.Get("Location"), resp.Body)}
+	if resp.Status/100 != 3 || loc == nil {
+		return nil, nil, &stageErr{stage: "callback", what: fmt.Sprintf("%s: %d %s %.200s", errCode(resp), resp.Status, resp.Header.Get("Location"), resp.Body)}
 	}
-	return loc, nil
+	return loc, resp, nil
 }
 
 func (e *env) token(form url.Values, auth string) (*rig.Resp, *stageErr) {
@@ -539,8 +555,10 @@ func contains(l []string, s string) bool {
 	return false
 }
 
-func provCase(v engine.Vec) engine.Result {
-	g := func(n string) string { return provSpace.Get(v, n) }
+// buildEnv constructs the provider a case describes (g reads the configuration
+// dimensions; cfg == nil means the common fixture). done == true: the case is decided
+// by the construction itself.
+func buildEnv(g func(string) string, cfg *refstore.Config) (e *env, issClass string, res engine.Result, done bool) {
 	on := func(n string) bool { return g(n) == "on" }
 	router := g("router")
 	routerIdx := 0
@@ -548,9 +566,9 @@ func provCase(v engine.Vec) engine.Result {
 		routerIdx = 1
 	}
 
-	cfg := rig.DefaultOPConfig()
-	cfg.CodeMethodS256, cfg.AuthMethodPost, cfg.AuthMethodPrivateKeyJWT = on("s256"), on("post"), on("pkjwt")
-	cfg.GrantTypeRefreshToken, cfg.RequestObjectSupported, cfg.BackChannelLogoutSupported = on("refresh"), on("reqobj"), on("bcl")
+	opc := rig.DefaultOPConfig()
+	opc.CodeMethodS256, opc.AuthMethodPost, opc.AuthMethodPrivateKeyJWT = on("s256"), on("post"), on("pkjwt")
+	opc.GrantTypeRefreshToken, opc.RequestObjectSupported, opc.BackChannelLogoutSupported = on("refresh"), on("reqobj"), on("bcl")
 	var caps refstore.Caps
 	if on("cc") {
 		caps |= refstore.CapCC
@@ -569,14 +587,14 @@ func provCase(v engine.Vec) engine.Result {
 	legEP, legAbs := legacyEndpoints(g("legacyEP"))
 
 	restoreDefaults()
-	r, err := rig.New(rig.Opts{OP: cfg, Caps: &caps, IssuerFn: issFn, Options: append(issOpts, epOpts...), Endpoints: legEP})
+	r, err := rig.New(rig.Opts{Cfg: cfg, OP: opc, Caps: &caps, IssuerFn: issFn, Options: append(issOpts, epOpts...), Endpoints: legEP})
 	if err != nil && g("eps") == "nil-token" {
-		return engine.OK("nil-endpoint-option", "construct-refused")
+		return nil, issClass, engine.OK("nil-endpoint-option", "construct-refused"), true
 	}
 	if err != nil {
-		return engine.Bad("valid-configuration-constructs", "construct-error", "C19/construct-failed/"+g("eps")+"/"+g("issuer"), err.Error())
+		return nil, issClass, engine.Bad("valid-configuration-constructs", "construct-error", "C19/construct-failed/"+g("eps")+"/"+g("issuer"), err.Error()), true
 	}
-	e := &env{r: r, h: r.H[routerIdx], router: router, host: g("host"), hdr: hdr, abs: provAbs}
+	e = &env{r: r, h: r.H[routerIdx], router: router, host: g("host"), hdr: hdr, abs: provAbs}
 	if router == "legacy" {
 		e.abs = legAbs
 		if legEP == nil { // mirror: what an integrator gets from the provider's accessors
@@ -588,15 +606,33 @@ func provCase(v engine.Vec) engine.Result {
 			e.abs = provAbs
 		}
 	}
-	defer restoreDefaults()
+	return e, issClass, engine.Result{}, false
+}
 
-	// the document, through the chosen Host
+// fetchDoc asks for the discovery document through the env's Host and headers.
+func (e *env) fetchDoc() (engine.Result, bool) {
 	dr := e.do("GET", oidc.DiscoveryEndpoint, nil, nil)
 	e.doc = dr.JSON()
 	if dr.Status != 200 || e.doc == nil || e.str("issuer") == "" {
-		return engine.Bad("discovery-served", errCode(dr), "C19/discovery-not-served/"+router, fmt.Sprintf("GET %s: %d %.200s %s", oidc.DiscoveryEndpoint, dr.Status, dr.Body, dr.Panic))
+		return engine.Bad("discovery-served", errCode(dr), "C19/discovery-not-served/"+e.router, fmt.Sprintf("GET %s: %d %.200s %s", oidc.DiscoveryEndpoint, dr.Status, dr.Body, dr.Panic)), false
 	}
 	e.issuer = e.str("issuer")
+	return engine.Result{}, true
+}
+
+func provCase(v engine.Vec) engine.Result {
+	g := func(n string) string { return provSpace.Get(v, n) }
+	on := func(n string) bool { return g(n) == "on" }
+	e, issClass, res, done := buildEnv(g, nil)
+	defer restoreDefaults()
+	if done {
+		return res
+	}
+
+	// the document, through the chosen Host
+	if res, ok := e.fetchDoc(); !ok {
+		return res
+	}
 
 	probe := g("probe")
 	switch {
@@ -1129,6 +1165,19 @@ func docIssuerVariant(asked, variant string) (string, bool) {
 		return u.Scheme + "://" + u.Host + "/%74enant", true
 	case "suffix-host":
 		return u.Scheme + "://" + u.Host + ".evil.example" + u.Path, true
+	// generated near misses of the asked string itself
+	case "one-shorter":
+		return asked[:len(asked)-1], true
+	case "one-longer":
+		return asked + "x", true
+	case "upper-scheme":
+		return strings.ToUpper(u.Scheme) + "://" + u.Host + u.Path, true
+	case "leading-space":
+		return " " + asked, true
+	case "userinfo":
+		return u.Scheme + "://" + u.Host + "@evil.example" + u.Path, true
+	case "contains-asked":
+		return "https://evil.example/?" + asked, true
 	}
 	panic("doc " + variant)
 }
@@ -1243,6 +1292,8 @@ func runCase(t *testing.T, part string, v engine.Vec) engine.Result {
 			res = pathGridCase(v)
 		case "rp-discover":
 			res = discoverCase(v)
+		case "issuer-flows":
+			res = flowCase(v)
 		default:
 			panic("part " + part)
 		}
@@ -1364,7 +1415,7 @@ func TestIsolatedWorker(t *testing.T) {
 	if os.Getenv("VERIF_C19_CHILD") == "" {
 		return
 	}
-	log.SetOutput(io.Discard) // hostFromForwarded reports unparsable headers through the std logger
+	log.SetOutput(io.Discard)     // hostFromForwarded reports unparsable headers through the std logger
 	debug.SetGCPercent(400)       // short-lived providers: trade some memory for less collector time ...
 	debug.SetMemoryLimit(1 << 30) // ... but never more than ~1 GiB per worker (16 workers share the machine with other checks)
 	out := os.NewFile(3, "results")
@@ -1398,12 +1449,14 @@ func TestCheck(t *testing.T) {
 		return
 	}
 	c := engine.Start(t, "C19")
-	c.SetRule("E1: every case constructs a provider in an isolated worker process and probes it using only its discovery document; groups {flags,capabilities,router,probe} and {endpoint options,LegacyServer endpoints,issuer strategy,Host,router,probe} are full products crossed with every <=k deviations of the remaining dimensions; three full grids for issuer strings, dynamic issuer paths and client.Discover; distinct = (part, oracle rule, observed outcome class)")
+	c.SetRule("E1: every case constructs a provider in an isolated worker process and probes it using only its discovery document; groups {flags,capabilities,router,probe} and {endpoint options,LegacyServer endpoints,issuer strategy,Host,router,probe} are full products crossed with every <=k deviations of the remaining dimensions; part issuer-flows: {flow, JWT kinds, one-step history, issuer strategy, Host, router} full product and {flow, kinds, history, router} x every <=k deviations of the rest (client authentication method, flags, capabilities, endpoints); three full grids for issuer strings, dynamic issuer paths and client.Discover; distinct = (part, oracle rule, observed outcome class)")
 	c.Assume("refstore is a correct storage; clients web/webjwt/pub/jwt/svc are registered for the grants they use",
 		"an advertised URL is addressed relative to the issuer (the integrator mounts the handler below the issuer's path); an absolute override is addressed by its own path",
 		"the login UI returns to <authorization_endpoint>/callback as op.AuthCallbackURL / LegacyServer.AuthCallbackURL document",
 		"issuer `https://host?` (and its siblings `#`, `/p?`) is judged Either (DESIGN §1.6); userinfo, ftp/ws, scheme-less, control characters are not named by the statement: Either",
 		"S256 not advertised: PKCE behaviour is recorded, not judged (the statement speaks about advertised methods only)",
+		"issuer-flows: the document's issuer is compared with the value the configured strategy documents for the request (static string; scheme+Host+path; Forwarded host, request Host as fallback); IssuerFromHost with a path without leading slash is Either",
+		"issuer-flows: every flow must issue its JWT kinds under the full configuration with client_secret_basic; refused under a reduced configuration or with another client authentication method: Either (recorded as flow-unavailable)",
 		"package defaults are restored from a pristine copy before and after every construction; one provider per process at a time (C20's shared DefaultEndpoints pointer cannot leak between cases)")
 	if msg := pristineProblem(); msg != "" {
 		c.Internal(msg)
@@ -1419,25 +1472,49 @@ func TestCheck(t *testing.T) {
 	// endpoint/issuer product with every single flag/capability deviation; thorough: one
 	// resp. two deviations more.
 	ks := engine.Pick(c, []int{0, 1}, []int{1, 2})
-	c.RunE1(engine.E1{Part: "issuer-strings", Space: issSpace, K: len(issSpace), NewWorker: worker("issuer-strings")})
-	c.RunE1(engine.E1{Part: "issuer-paths", Space: pathSpace, K: len(pathSpace), NewWorker: worker("issuer-paths")})
-	c.RunE1(engine.E1{Part: "rp-discover", Space: discSpace, K: len(discSpace), NewWorker: worker("rp-discover")})
+	only := os.Getenv("VERIF_C19_ONLY") // development aid: run one part (the run is then reported as not exhaustive)
+	if only != "" {
+		c.Cap("VERIF_C19_ONLY=" + only + ": other parts not run")
+	}
+	if only == "" || only == "grids" {
+		c.RunE1(engine.E1{Part: "issuer-strings", Space: issSpace, K: len(issSpace), NewWorker: worker("issuer-strings")})
+		c.RunE1(engine.E1{Part: "issuer-paths", Space: pathSpace, K: len(pathSpace), NewWorker: worker("issuer-paths")})
+		c.RunE1(engine.E1{Part: "rp-discover", Space: discSpace, K: len(discSpace), NewWorker: worker("rp-discover")})
+	}
+	// every token-issuing flow x JWT kinds x one-step history x issuer strategy x Host x router
+	// in full, and flow x kinds x history x router against every single deviation of the rest of
+	// the configuration (thorough: one deviation more each).
+	if only == "" || only == "issuer-flows" {
+		c.RunE1(engine.E1{
+			Part:  "issuer-flows",
+			Space: flowSpace,
+			Groups: [][]string{
+				{"flow", "kinds", "prior", "issuer", "host", "router"},
+				{"flow", "kinds", "prior", "router"},
+			},
+			Ks:        engine.Pick(c, []int{0, 1}, []int{1, 2}),
+			Skip:      flowSkip,
+			NewWorker: worker("issuer-flows"),
+		})
+	}
 	ri, li, ei, pi := provSpace.Idx("router"), provSpace.Idx("legacyEP"), provSpace.Idx("eps"), provSpace.Idx("probe")
-	c.RunE1(engine.E1{
-		Part:  "provider",
-		Space: provSpace,
-		Groups: [][]string{
-			{"s256", "post", "pkjwt", "refresh", "reqobj", "bcl", "cc", "te", "dev", "router", "probe"},
-			{"eps", "legacyEP", "issuer", "host", "router", "probe"},
-		},
-		Ks: ks,
-		// the LegacyServer's own Endpoints do not exist on the Provider router
-		// ... and a provider whose construction is refused has nothing to probe: one probe value suffices
-		Skip: func(v engine.Vec) bool {
-			return (v[ri] == 0 && v[li] != 0) || (provSpace[ei].Vals[v[ei]] == "nil-token" && v[pi] != 0)
-		},
-		NewWorker: worker("provider"),
-	})
+	if only == "" || only == "provider" {
+		c.RunE1(engine.E1{
+			Part:  "provider",
+			Space: provSpace,
+			Groups: [][]string{
+				{"s256", "post", "pkjwt", "refresh", "reqobj", "bcl", "cc", "te", "dev", "router", "probe"},
+				{"eps", "legacyEP", "issuer", "host", "router", "probe"},
+			},
+			Ks: ks,
+			// the LegacyServer's own Endpoints do not exist on the Provider router
+			// ... and a provider whose construction is refused has nothing to probe: one probe value suffices
+			Skip: func(v engine.Vec) bool {
+				return (v[ri] == 0 && v[li] != 0) || (provSpace[ei].Vals[v[ei]] == "nil-token" && v[pi] != 0)
+			},
+			NewWorker: worker("provider"),
+		})
+	}
 	p.close()
 	c.Finish()
 }
